@@ -268,7 +268,10 @@ inline Value queryNeighMoving(NeighMoving* n)
   // (the distance checker of an isotropic neighbourhood is 2-D whatever the space: selections are asked only when the
   //  dimensions agree, as for an object built through the API)
   const BiTargetCheckDistance* b = n->getBiPtDist();
-  Value q = (n->getNSect() > 64 || b->getNDim() != (int)n->getNDim()) ? Value::object() : neighSelect(n, n->getNDim());
+  bool sane = n->getNSect() <= 64 && b->getNDim() == (int)n->getNDim();
+  // (undefined or non-positive anisotropy ratios break the selection of an object built through the API as well)
+  if (n->getFlagAniso()) for (double c : n->getAnisoCoeffs()) if (FFFF(c) || c <= 0.) sane = false;
+  Value q = sane ? neighSelect(n, n->getNDim()) : Value::object();
   VectorDouble dd(b->getNDim(), 1.);
   q["normdist"] = T(b->getNormalizedDistance(dd));
   return q;
